@@ -31,7 +31,9 @@ RULE = ('streams: (write) message lists ASCII/2/3/4-byte text x send() schedules
 class FakeSock(object):
     def __init__(self):
         self.sent = b''; self.script = []; self.recvs = []; self._closed = False; self.nsend = 0; self.taken = []
-    def settimeout(self, t): pass
+        self.timeout = 'unset'
+    def settimeout(self, t): self.timeout = t
+    def setblocking(self, flag): self.timeout = None if flag else 0.0
     def connect(self, a): pass
     def shutdown(self, how): pass
     def fileno(self): return 7
@@ -47,10 +49,21 @@ class FakeSock(object):
             return n
         raise mk_error(r)
     def recv(self, n):
-        r = self.recvs.pop(0) if self.recvs else ('t',)
+        if not self.recvs:
+            if self.timeout is None:
+                # a blocking socket with nothing to read: the call would never return
+                raise Hang('recv() on a socket in blocking mode with no data available')
+            raise socket.timeout('timed out')
+        r = self.recvs.pop(0)
         if r[0] == 'd':
+            if len(r[1]) > n:
+                self.recvs.insert(0, ('d', r[1][n:]))      # recv(n) returns at most n bytes
+                return r[1][:n]
             return r[1]
         raise mk_error(r)
+
+class Hang(BaseException):
+    """the call would block forever (raised instead of blocking; no except clause of the code under test names it)"""
 
 def mk_error(r):
     if r[0] == 't':
@@ -154,6 +167,10 @@ class Rig(object):
                 raise
         d.run = run_wrapped
         return d, stub, fs, st
+
+def as_bytes(x):
+    """a buffer of the driver as bytes (a str buffer is a change of representation: shown as its UTF-8)"""
+    return bytes(x) if isinstance(x, (bytes, bytearray)) else x.encode('utf-8', 'surrogatepass')
 
 def enc_tags(t):
     return '-' if not t else ','.join(wire.enc(k) + ':' + wire.enc_opt(v) for k, v in t.items())
@@ -338,7 +355,7 @@ def gen_stream(r):
 
 def partition(r, data, mode):
     if not data: return []
-    if mode == 'one': return [data]
+    if mode == 'one': return cap_chunks([data])
     if mode == 'bytes': return [data[i:i + 1] for i in range(len(data))]
     cuts = set()
     if mode == 'targeted':
@@ -353,7 +370,33 @@ def partition(r, data, mode):
     out = []; p = 0
     for c in cuts + [len(data)]:
         out.append(data[p:c]); p = c
-    return [x for x in out if x]
+    return cap_chunks([x for x in out if x])
+
+RECV_SIZE = 1024
+def cap_chunks(chunks):
+    """recv(1024) never returns more than 1024 bytes"""
+    out = []
+    for c in chunks:
+        for i in range(0, len(c), RECV_SIZE):
+            out.append(c[i:i + RECV_SIZE])
+    return out
+
+def full_buffer_case(r):
+    """a burst delivered in chunks of EXACTLY the recv size, each followed by 'nothing more for now' (timeout / EAGAIN)"""
+    s = b''
+    while len(s) < RECV_SIZE * r.choice([1, 2, 2, 3]) + r.choice([0, 0, 7]):
+        s += gen_stream(r)
+    s = s.replace(b'ERROR', b'NOTICE')
+    ops = []
+    for i in range(0, len(s), RECV_SIZE):
+        ops.append(('sr', ('d', s[i:i + RECV_SIZE])))
+        k = r.randint(0, 3)
+        if k == 0: ops.append(('sr', ('t',)))
+        elif k == 1: ops.append(('sr', ('e', 11)))
+        ops.append(('loop',))
+        if r.random() < 0.5: ops.append(('loop',))
+    ops += [('loop',)] * 4
+    return ops
 
 def read_ops(r, chunks, noise=True):
     ops = []
@@ -420,7 +463,7 @@ class MultiRig(object):
         w = allsent[st.wpos:]; st.wpos = len(allsent)
         return 'c%d z%d x%d k%d r%d e%d ep%d ob=%s ib=%s w=%s q=%d f=%s' % (
             d.connected, d.zombie, st.name in self.rig.drivers._deadDrivers, d.conn._closed, d.nextReconnectTime is not None, d.eagains,
-            len(st.socks) - 1, d.outbuffer.hex(), d.inbuffer.hex() if isinstance(d.inbuffer, bytes) else d.inbuffer.encode().hex(), w.hex(), len(stub.q),
+            len(st.socks) - 1, as_bytes(d.outbuffer).hex(), as_bytes(d.inbuffer).hex(), w.hex(), len(stub.q),
             ';'.join(enc_msg(m) for m in fed) if fed else '-')
 
 def multi_cases(rig, r, n_cases):
@@ -519,7 +562,10 @@ def reference_messages(rig, data):
 def oracle_read(rig, r, stream_ops, obs):
     """messages delivered = those of the unsplit stream"""
     data = b''.join(o[1][1] for o in stream_ops if o[0] == 'sr' and o[1][0] == 'd')
-    _, ref = run_history(rig, [('sr', ('d', data))] + [('loop',)] * 2 if data else [('loop',)])
+    ref_ops = []
+    for c in cap_chunks([data]):
+        ref_ops += [('sr', ('d', c)), ('loop',)]
+    _, ref = run_history(rig, ref_ops + [('loop',)] * 2)
     if obs['fed'] != ref['fed']:
         return False, 'delivered %d message(s) %r but the same bytes in one recv() deliver %d: %r' % (
             len(obs['fed']), obs['fed'][:3], len(ref['fed']), ref['fed'][:3])
@@ -573,7 +619,7 @@ def make_case(rig, r, ops, kind, reads=False):
     outs, obs = run_history(rig, ops)
     ok, msg, fid = oracle_write(ops, obs)
     if ok and reads and obs['connected'] and not obs['removed'] and not obs['recv_left'] and len(obs['epochs']) == 1 and not obs['reconnect_requests'] and \
-            not any(o[0] == 'sr' and (o[1][0] == 'e' or (o[1][0] == 'd' and not o[1][1])) for o in ops):
+            not any(o[0] == 'sr' and ((o[1][0] == 'e' and o[1][1] != 11) or (o[1][0] == 'd' and not o[1][1])) for o in ops):
         ok, msg = oracle_read(rig, r, ops, obs)
     if obs['crash']:
         ok = False; msg = 'exception %s escaped SocketDriver.run()' % obs['crash']; fid = None
@@ -604,6 +650,8 @@ def explore(rig, stream, n_write, n_read, n_mixed, exhaustive_bytes=0, corpus=Tr
         mode = ['random', 'targeted', 'bytes', 'random'][i % 4]
         if mode == 'bytes' and len(s) > 160: mode = 'targeted'
         cases.append(make_case(rig, r, read_ops(r, partition(r, s, mode)), 'read-' + mode, reads=True))
+    for _ in range(max(20, n_read // 12)):
+        cases.append(make_case(rig, r, full_buffer_case(r), 'read-full-buffer', reads=True))
     for _ in range(exhaustive_bytes):
         s = gen_stream(r)[:120]
         cases.append(make_case(rig, r, read_ops(r, partition(r, s, 'bytes'), noise=False), 'read-bytes', reads=True))
